@@ -83,7 +83,7 @@ def listeners():
                                st.integers(0, 4).map(lambda j: "rm:%d" % j),
                                st.integers(0, 4).map(lambda j: "add:%d" % j)), max_size=3)
     return st.lists(st.builds(lambda n, b, k: {"name": n, "behav": b, "kind": k},
-                              st.sampled_from(NAMES[:N_LISTENED]), behav, st.sampled_from(["func", "bound"])),
+                              st.sampled_from(NAMES[:N_LISTENED]), behav, st.sampled_from(["func", "func", "bound", "eq"])),
                     min_size=1, max_size=5)
 
 
@@ -145,6 +145,26 @@ class _Holder(object):
         return self._fn(payload)
 
 
+class _EqCallable(object):
+    """A listener object that compares EQUAL to every other listener of its class (a callable dataclass / collector
+    whose fields are still equal): distinct listeners all the same - registration is by identity of the callable the
+    application passed, not by its value."""
+
+    def __init__(self, fn):
+        self._fn = fn
+
+    def __call__(self, payload):
+        return self._fn(payload)
+
+    def __eq__(self, other):
+        return isinstance(other, _EqCallable)
+
+    def __ne__(self, other):
+        return not self.__eq__(other)
+
+    __hash__ = None
+
+
 class _Run(object):
     def __init__(self, case, with_events=True):
         self.case = case
@@ -184,6 +204,7 @@ class _Run(object):
         # listeners of kind "bound" are registered as *bound methods* (what TorState, onion.py etc. pass): every
         # attribute access yields a new, equal-but-not-identical method object, for add and for remove alike
         self.holders = [_Holder(cb) for cb in self.cbs]
+        self.eqobjs = [_EqCallable(cb) for cb in self.cbs]
         self.ops = []                 # per add/rm: names with listeners afterwards, commands written before it,
                                       # whether the connection was idle, whether it wrote its SETEVENTS at once
         self.api_errors = []
@@ -285,6 +306,8 @@ class _Run(object):
     def _listener(self, j):
         if self.L[j].get("kind") == "bound":
             return self.holders[j].on_event       # a fresh bound-method object on every call
+        if self.L[j].get("kind") == "eq":
+            return self.eqobjs[j]
         return self.cbs[j]
 
     def _make_cb(self, i):
@@ -614,6 +637,8 @@ def drive_events(case):
         res.label("raising-listener")
     if any(l.get("kind") == "bound" for l in case["listeners"]):
         res.label("bound-method-listener")
+    if sum(1 for l in case["listeners"] if l.get("kind") == "eq") >= 2:
+        res.label("distinct-listeners-that-compare-equal")
     return res
 
 
